@@ -130,6 +130,14 @@ def make_tarball(members, ext, top="repo-snapshot"):
     return bio.getvalue()
 
 
+def cdata(b):
+    """file content as it crosses into Coq: long contents (the multi-block test blob) are replaced by
+    a 12-byte digest — the model never looks inside file data of the trees"""
+    if len(b) <= 16:
+        return b
+    return b"\x00BIG" + zlib.crc32(b).to_bytes(4, "big") + len(b).to_bytes(4, "big")
+
+
 def members_tree(members):
     t = {}
     for rel, kind, payload in members:
@@ -139,7 +147,7 @@ def members_tree(members):
         elif kind == "l":
             t[p] = ("sym", payload)
         else:
-            t[p] = ("file", payload, 0o644)
+            t[p] = ("file", cdata(payload), 0o644)
     return t
 
 
@@ -315,7 +323,7 @@ def tree_from_snapshot(snap, prefix):
     for p, nd in snap.items():
         if len(p) > k and p[:k] == prefix:
             if nd[0] == "file":
-                t[p[k:]] = ("file", nd[1], nd[2])
+                t[p[k:]] = ("file", cdata(nd[1]), nd[2])
             elif nd[0] == "dir":
                 t[p[k:]] = ("dir", nd[1])
             elif nd[0] == "sym":
@@ -447,7 +455,7 @@ def _child_body(tarmod, root, url, force, crash_at, tar_crash, spool, chunk):
             raise fsx.Crash()
         try:
             r = real_run(cmd, *a, **kw)
-            info["tar_ok"] = True
+            info["tar_ok"] = r.returncode == 0       # the real exit status, whatever the caller does with it
             return r
         except subprocess.CalledProcessError:
             info["tar_ok"] = False
@@ -524,6 +532,10 @@ def _child_body(tarmod, root, url, force, crash_at, tar_crash, spool, chunk):
 
 
 USE_FORK = False
+
+
+def ncases_fork():
+    return int(os.environ.get("VERIF_C47_FORK") or 0)
 
 
 def run_sync(root, url, force, spool, chunk, crash_at=None, tar_crash=None):
@@ -772,6 +784,18 @@ def run_case_real(chk, case, idx, port, spool, root, max_points):
         if not fr1:
             out["frame_bad"].append(f"point k={k}")
         out["points"].append(pt)
+        if st1["base"] is None and isinstance(st1["old"], dict) and st1["old"] and not out.get("parked_checked"):
+            # the repository is parked in .old: a follow-up sync that cannot fetch must put it back
+            out["parked_checked"] = True
+            build_root(root, s0)
+            run_sync(root, url1, case["force"], spool, case["chunk"], crash_at=ci, tar_crash=tj)
+            r3 = run_sync(root, f"tar+http://127.0.0.1:{port}/nosuch{idx}/r.tar.gz", False, spool, case["chunk"])
+            st3, _ = observe(root, None, [])
+            if not (r3["code"] == 1 and st3["base"] == st1["old"] and st3["upd"] is None and st3["old"] is None):
+                out["parked_bad"] = {"crash_before": pt["call"], "follow_up": "HTTP 404", "outcome": r3["code"],
+                                     "detail": r3["detail"],
+                                     "after": {k2: (sorted("/".join(p) for p in v) if isinstance(v, dict) else v)
+                                               for k2, v in st3.items() if k2 in ("base", "upd", "old")}}
     return out
 
 
@@ -893,13 +917,17 @@ def main(chk: Check):
     chk.note("partial: HTTP stack and the tar binary are external (tar's result is an input of the model step "
              "Extract and is compared with the tarball's member list by the harness); a completed call is assumed "
              "durable; directory trees are values of the model state (kernel rename/mkdir semantics trusted)")
+    import time as _time
+    t_built = _time.time()
     import pkgcore.sync.tar  # noqa: F401  (imported before forking)
     global USE_FORK
-    USE_FORK = chk.thorough or os.environ.get("VERIF_C47_FORK") == "1"
-    chk.cov["forked_processes"] = USE_FORK
+    # thorough: the first scenarios run every sync in a forked child that really dies at the crash
+    # (process creation costs ~0.5 s in this sandbox, so not all of them)
+    fork_first = 5 if chk.thorough else (ncases_fork() if os.environ.get("VERIF_C47_FORK") else 0)
+    chk.cov["forked_scenarios"] = fork_first
 
-    ncases = int(os.environ.get("VERIF_C47_CASES", 0)) or chk.n(8, 80)
-    max_points = chk.n(18, 60)
+    ncases = int(os.environ.get("VERIF_C47_CASES", 0)) or chk.n(8, 24)
+    max_points = chk.n(18, 32)
     work = str(chk.scratch / "c47")
     os.makedirs(work)
     spool = os.path.join(work, "spool")
@@ -912,6 +940,7 @@ def main(chk: Check):
                  "truncated"]
         for i in range(ncases):
             case = gen_case(chk.rng, kinds[i] if i < len(kinds) else None)
+            USE_FORK = i < fork_first
             results.append(run_case_real(chk, case, i, port, spool, root, max_points))
     finally:
         proc.terminate()
@@ -921,6 +950,8 @@ def main(chk: Check):
             proc.kill()
         shutil.rmtree(work, ignore_errors=True)
 
+    t_real = _time.time()
+    chk.cov["timing_s"] = {"build_and_assumptions": round(t_built - chk.t0, 1), "real_runs": round(t_real - t_built, 1)}
     rows, hist = [], {}
     npoints = 0
     prop_bad = []
@@ -937,6 +968,11 @@ def main(chk: Check):
         if res["tar_ok"] and sv["body"] == "tar" and res["tar_tree"] != members_tree(sv["members"]):
             prop_bad.append(("new-tree-incomplete", {"case": short_case(case), "unpacked": repr(res["tar_tree"])[:400],
                                                      "tar_cmd": res["ref"]["info"].get("tar_cmd")}))
+        if 10 in res["tags"] and (sv["body"] != "tar" or strip_meta(res["final"]["base"] or {}) != members_tree(sv["members"])):
+            prop_bad.append(("new-tree-incomplete", {"case": short_case(case), "what": "a tree was installed that is not "
+                             "the content of a complete tarball", "installed": repr(res["final"]["base"])[:400]}))
+        if res.get("parked_bad"):
+            prop_bad.append(("parked-tree-not-restored", {"case": short_case(case), **res["parked_bad"]}))
         if res["frame_bad"]:
             prop_bad.append(("frame", {"case": short_case(case), "where": res["frame_bad"][:3]}))
         if res["unknown"]:
